@@ -165,13 +165,25 @@ impl<W, R, T> Debug for ManagedXValue<W, R, T> {
 
 impl<W, R, T> Drop for ManagedXValue<W, R, T> {
     fn drop(&mut self) {
+        #[cfg(feature = "verif")]
+        crate::verif::ledger_drop(self.size.into());
         self.runtime.deallocate(self.size);
+    }
+}
+
+#[cfg(feature = "verif")]
+impl<W, R, T> ManagedXValue<W, R, T> {
+    /// the number of bytes this value was accounted for when it was created
+    pub fn verif_recorded_size(&self) -> usize {
+        self.size.into()
     }
 }
 
 impl<W, R, T> ManagedXValue<W, R, T> {
     pub(crate) fn new(value: XValue<W, R, T>, runtime: RTCell<W, R, T>) -> RuntimeResult<Rc<Self>> {
         let size = runtime.allocate(&value)?;
+        #[cfg(feature = "verif")]
+        crate::verif::ledger_new(size.into());
         Ok(Rc::new(Self {
             runtime,
             size,
@@ -206,6 +218,8 @@ impl<W, R, T> Debug for ManagedXError<W, R, T> {
 
 impl<W, R, T> Drop for ManagedXError<W, R, T> {
     fn drop(&mut self) {
+        #[cfg(feature = "verif")]
+        crate::verif::ledger_drop(self.size.into());
         self.runtime.deallocate(self.size);
     }
 }
@@ -217,6 +231,8 @@ impl<W, R, T> ManagedXError<W, R, T> {
     ) -> RuntimeResult<Rc<Self>> {
         let error = error.into();
         let size = runtime.allocate(&error)?;
+        #[cfg(feature = "verif")]
+        crate::verif::ledger_new(size.into());
         Ok(Rc::new(Self {
             runtime,
             size,
